@@ -703,6 +703,19 @@ def _parse_source_for_lambda(
     return lda
 
 
+def copy_ast(a: Any) -> Any:
+    """Copy the `ast` nodes (and lists) of a tree. Anything else, including attributes that
+    are not ast fields (e.g. executor references), is shared with the original."""
+    if isinstance(a, list):
+        return [copy_ast(i) for i in a]
+    if not isinstance(a, ast.AST):
+        return a
+    new_a = copy.copy(a)
+    for name, value in ast.iter_fields(a):
+        setattr(new_a, name, copy_ast(value))
+    return new_a
+
+
 def parse_as_ast(
     ast_source: Union[str, ast.AST, Callable], caller_name: Optional[str] = None
 ) -> ast.Lambda:
